@@ -132,6 +132,9 @@ type Sim struct {
 	RepoDir  string
 	OfferLog []OfferRecord
 	Consul   *FakeConsul
+	// OnMsg, if set, is called synchronously for every MESSAGE command the core sends, before the
+	// simulated executors react (so its effects are ordered before anything the command causes)
+	OnMsg func(m *MsgRecord)
 }
 
 type OfferRecord struct {
@@ -450,6 +453,9 @@ func (s *Sim) Call(ctx context.Context, call *scheduler.Call) (mesos.Response, e
 			plans = append(plans, plan{t.TaskId.Value, out})
 		}
 		s.record(CallRecord{Type: "MESSAGE", Msg: mr, FwID: fw})
+		if s.OnMsg != nil {
+			s.OnMsg(mr)
+		}
 		if sendFail {
 			return emptyResp{}, errors.New("simulated: agent unreachable")
 		}
